@@ -145,6 +145,21 @@ class C19:
         if got is not None and got != want:
             res.fail("%s|own-decoder|%s" % (sig, shape(want, got, case)), "mapping %s (first line %d) froze to %s which xdis decodes as %s" % (
                 want[:6], case["first"], rw.hx(fb)[:80], got[:6]))
+        # a frozen object given a NEW table and frozen again encodes the new table
+        try:
+            shifted = dict((o, l + 3) for o, l in pairs)
+            want2 = [[o, l + 3] for o, l in want]
+            p2 = p.replace(**{("co_linetable" if typ == "Code310" else "co_lnotab"): shifted})
+            p2 = p2.freeze()
+            t2 = p2.co_linetable if typ == "Code310" else p2.co_lnotab
+            if not isinstance(t2, (bytes, str)):
+                res.fail("%s|refreeze|table-not-encoded" % sig, "after freeze(), replace(table=new dict), freeze() the table is still a %s" % type(t2).__name__)
+            else:
+                got2 = [[a, b] for a, b in opc.findlinestarts(p2)]
+                if got2 != want2:
+                    res.fail("%s|refreeze|decode" % sig, "after freeze(), replace(table=new dict), freeze(): decodes as %s, the new mapping is %s" % (got2[:6], want2[:6]))
+        except Exception as e:
+            res.fail("%s|refreeze|raised|%s" % (sig, type(e).__name__), "freeze -> replace(table) -> freeze raised %s: %s" % (type(e).__name__, e))
         for rv in refs:
             r = ctx.pool.ref(rv).call("mkcode", fields={
                 "co_code": ["y", rw.hx(bytes([9] * case["codelen"]))], "co_firstlineno": ["i", str(case["first"])],
